@@ -143,6 +143,15 @@ func (w *Worker) zero(t types.Type) Value {
 	case *types.Pointer:
 		return Ptr{}
 	case *types.Array:
+		if n, leaf := flatArrayInfo(t); leaf != nil && n > 0 && n <= 1<<16 {
+			if _, nested := t.Elem().Underlying().(*types.Array); nested {
+				flat := make([]Value, n)
+				for i := range flat {
+					flat[i] = w.zero(leaf)
+				}
+				return arrayView(t, flat)
+			}
+		}
 		a := make(ArrayV, t.Len())
 		for i := range a {
 			a[i] = w.zero(t.Elem())
@@ -320,4 +329,66 @@ func (m *MapV) sortedKeys() []string {
 	ks := append([]string(nil), m.keys...)
 	sort.Strings(ks)
 	return ks
+}
+
+// flatArrayInfo returns the number of scalar leaves of a (nested) array type
+// and the leaf type, or nil if the leaves are not basic scalars.
+func flatArrayInfo(t types.Type) (int, types.Type) {
+	n := 1
+	for {
+		a, ok := t.Underlying().(*types.Array)
+		if !ok {
+			break
+		}
+		n *= int(a.Len())
+		t = a.Elem()
+	}
+	if b, ok := t.Underlying().(*types.Basic); ok && b.Info()&(types.IsNumeric|types.IsBoolean) != 0 {
+		return n, t
+	}
+	return 0, nil
+}
+
+// arrayView builds a (nested) array value whose leaves alias the flat cells.
+func arrayView(t types.Type, flat []Value) Value {
+	a := t.Underlying().(*types.Array)
+	n := int(a.Len())
+	if inner, ok := a.Elem().Underlying().(*types.Array); ok {
+		_ = inner
+		per := len(flat) / max(n, 1)
+		out := make(ArrayV, n)
+		for i := range out {
+			out[i] = arrayView(a.Elem(), flat[i*per:])
+		}
+		return out
+	}
+	return ArrayV(flat[:n])
+}
+
+// leafCells returns the flat leaf cells of a nested array value if they are
+// contiguous in memory (built by arrayView), else nil.
+func leafCells(v Value) []Value {
+	a, ok := v.(ArrayV)
+	if !ok || len(a) == 0 {
+		return nil
+	}
+	if _, nested := a[0].(ArrayV); !nested {
+		return a
+	}
+	first := leafCells(a[0])
+	if first == nil {
+		return nil
+	}
+	total := len(first) * len(a)
+	if cap(first) < total {
+		// not built as a view over one flat slice
+		return nil
+	}
+	full := first[:total:total]
+	// verify aliasing of the last inner array
+	last := leafCells(a[len(a)-1])
+	if last == nil || len(last) == 0 || &last[0] != &full[total-len(last)] {
+		return nil
+	}
+	return full
 }
